@@ -328,6 +328,10 @@ def run(ctx):
         ctx.ob('GUARDDOM', f'configuration step: the non-owned card {key} is assigned only if absent or if its present value is the one '
                'inherited from the input recording (user-supplied cards are preserved)', pc_fi, ok_absent or ok_inherited,
                {'path_condition': [pretty(c)[:160] for c in e.pc]}, node=e.node, construct=e.text()[:80] + ' [guard]')
+    # (dict.setdefault assigns only when the key is absent: guarded by construction)
+    n_free += len([e for e in Ip.events if e.kind == 'call' and e.data.get('name') == '.setdefault' and len(e.data['args']) >= 2
+                   and e.data['args'][1].single_atom() is not None and e.data['args'][1].single_atom().kind == 'str'
+                   and e.data['args'][1].single_atom().args[0] not in OWNED])
     ctx.require(n_free >= 3, 'configuration step: stores of non-owned cards (TELESCOP/OBSERVER/SRC_NAME) not found (vacuity guard)')
 
     # =============================================================== D5 PKTIDX / END / padding order
